@@ -60,3 +60,28 @@ for _table, _fn in (("comps", "add_comp"), ("pars", "add_par"), ("pops", "add_po
                 ("C16.other_entries_are_untouched", "len(TABLE) == 2 and TABLE['old'] == OLD"),
             ] + ([("C16.a_compartment_added_by_hand_can_be_targeted", "TABLE['new']['non_targetable'] == False")] if _table == "comps" else []),
             defined_props=["C16", "C18"])
+
+
+# ---- the constructor's own loops (they ESTABLISH the invariant): one framework row each
+def _env_init(it):
+    from pyvc.interp import PyObjV
+    from pyvc.core import Opaque
+    from pyvc import source
+
+    return {"self": PyObjV("ProgramSet", source.load("programs"), {"name": "ps", "comps": {}, "pars": {}}), "spec": Opaque("framework row"), "framework": Opaque("framework"), "_": 0}
+
+
+_row = {"spec.name": "CODE", "spec['display name']": "LABEL", "spec['population type']": "TYPE"}
+CONTRACTS["programs:ProgramSet.__init__#one_compartment_row"] = dict(
+    schema=schema, fragment={"iter": "framework.comps.iterrows()"}, make_env=_env_init,
+    ghost_params={"CODE": "const:'c'", "LABEL": "const:'Compartment c'", "TYPE": "const:'default'", "IS_SOURCE": "bool", "IS_SINK": "bool", "IS_JUNCTION": "bool"},
+    stubs=dict(_row, **{"spec['is source'] == 'y'": "IS_SOURCE", "spec['is sink'] == 'y'": "IS_SINK", "spec['is junction'] == 'y'": "IS_JUNCTION"}),
+    ensures=[("C16+C18.a_compartment_entry_has_label_type_and_the_flag", "sorted(self.comps['c'].keys()) == ['label', 'non_targetable', 'type'] and self.comps['c']['label'] == 'Compartment c' and self.comps['c']['type'] == 'default'"),
+             ("C16.sources_sinks_and_junctions_cannot_be_targeted", "self.comps['c']['non_targetable'] == (IS_SOURCE or IS_SINK or IS_JUNCTION)")],
+    defined_props=["C16", "C18"])
+CONTRACTS["programs:ProgramSet.__init__#one_parameter_row"] = dict(
+    schema=schema, fragment={"iter": "framework.pars.iterrows()"}, make_env=_env_init,
+    ghost_params={"CODE": "const:'p'", "LABEL": "const:'Parameter p'", "TYPE": "const:'default'", "TARGETABLE": "bool"},
+    stubs=dict(_row, **{"spec['targetable'] == 'y'": "TARGETABLE"}),
+    ensures=[("C16.exactly_the_targetable_parameters_are_listed_with_label_and_type", "('p' in self.pars) == TARGETABLE and implies(TARGETABLE, self.pars['p'] == {'label': 'Parameter p', 'type': 'default'})")],
+    defined_props=["C16", "C18"])
